@@ -252,38 +252,38 @@ Section Doc.
   Hypothesis eng_none : forall k pats name,
     engine k pats name = None -> forall p, In p pats -> ~ re_hits k p name.
 
-  Lemma hits_glob p name : wf_pat p = true -> nonl name = true ->
+  Lemma hits_glob p name : wf_pat p = true ->
     (re_hits (identify p) p name <-> glob_match p name = true).
-  Proof. intros Hw Hn. apply pattern_correct; [apply wf_pat_not_re; exact Hw|exact Hn]. Qed.
+  Proof. intros Hw. apply pattern_correct. apply wf_pat_not_re; exact Hw. Qed.
 
   Theorem match_sound_complete k ps name : (0 < k)%nat ->
-    forallb wf_pat (map normalize ps) = true -> nonl name = true ->
+    forallb wf_pat (map normalize ps) = true ->
     (forall p, globster normalize engine k ps name = Some p ->
                In p (map normalize ps) /\ glob_match p name = true) /\
     (globster normalize engine k ps name = None <->
      forall p, In p (map normalize ps) -> glob_match p name = false).
   Proof.
-    intros Hk Hwf Hnl. rewrite forallb_forall in Hwf. split.
+    intros Hk Hwf. rewrite forallb_forall in Hwf. split.
     - intros p H. destruct (globster_sound normalize engine re_hits eng_some eng_none k ps name p H) as [Hin Hh].
-      split; [exact Hin|]. apply (hits_glob p name (Hwf p Hin) Hnl). exact Hh.
+      split; [exact Hin|]. apply (hits_glob p name (Hwf p Hin)). exact Hh.
     - rewrite (globster_none normalize engine re_hits eng_some eng_none k ps name Hk). split.
       + intros H p Hin. destruct (glob_match p name) eqn:E; [|reflexivity].
-        exfalso. apply (H p Hin). apply (hits_glob p name (Hwf p Hin) Hnl). exact E.
-      + intros H p Hin Hh. apply (hits_glob p name (Hwf p Hin) Hnl) in Hh. rewrite (H p Hin) in Hh. discriminate.
+        exfalso. apply (H p Hin). apply (hits_glob p name (Hwf p Hin)). exact E.
+      + intros H p Hin Hh. apply (hits_glob p name (Hwf p Hin)) in Hh. rewrite (H p Hin) in Hh. discriminate.
   Qed.
 
   Definition some_glob (l : list str) (name : str) : Prop :=
     exists p, In p (map normalize l) /\ glob_match p name = true.
 
-  Lemma some_hit_glob l name : forallb wf_pat (map normalize l) = true -> nonl name = true ->
+  Lemma some_hit_glob l name : forallb wf_pat (map normalize l) = true ->
     (some_hit normalize re_hits l name <-> some_glob l name).
   Proof.
-    intros Hwf Hnl. rewrite forallb_forall in Hwf. unfold some_hit, some_glob. split.
-    - intros (p & Hin & Hh). exists p. split; [exact Hin|]. apply (hits_glob p name (Hwf p Hin) Hnl). exact Hh.
-    - intros (p & Hin & Hh). exists p. split; [exact Hin|]. apply (hits_glob p name (Hwf p Hin) Hnl). exact Hh.
+    intros Hwf. rewrite forallb_forall in Hwf. unfold some_hit, some_glob. split.
+    - intros (p & Hin & Hh). exists p. split; [exact Hin|]. apply (hits_glob p name (Hwf p Hin)). exact Hh.
+    - intros (p & Hin & Hh). exists p. split; [exact Hin|]. apply (hits_glob p name (Hwf p Hin)). exact Hh.
   Qed.
 
-  Theorem exceptions_doc k ps name : (0 < k)%nat -> nonl name = true ->
+  Theorem exceptions_doc k ps name : (0 < k)%nat ->
     let '(i0, i1, i2) := split_exc ps in
     forallb wf_pat (map normalize i1) = true -> forallb wf_pat (map normalize i2) = true ->
     nonempty_all (map normalize i1) = true -> nonempty_all (map normalize i2) = true ->
@@ -294,14 +294,14 @@ Section Doc.
     (~ some_glob i2 name -> ~ some_glob i1 name ->
        exc_match normalize engine k ps name = globster normalize engine k i0 name).
   Proof.
-    intros Hk Hnl.
+    intros Hk.
     pose proof (exceptions normalize engine re_hits eng_some eng_none k ps name Hk) as H.
     destruct (split_exc ps) as [[i0 i1] i2]. intros Hw1 Hw2 Hn1 Hn2.
     destruct (H Hn1 Hn2) as (Ha & Hb & Hc).
-    pose proof (some_hit_glob i1 name Hw1 Hnl) as E1. pose proof (some_hit_glob i2 name Hw2 Hnl) as E2.
+    pose proof (some_hit_glob i1 name Hw1) as E1. pose proof (some_hit_glob i2 name Hw2) as E2.
     split; [|split].
     - intros Hg. apply E2 in Hg. destruct (Ha Hg) as (p & He & Hin & Hh). exists p. split; [exact He|].
-      split; [exact Hin|]. rewrite forallb_forall in Hw2. apply (hits_glob p name (Hw2 p Hin) Hnl). exact Hh.
+      split; [exact Hin|]. rewrite forallb_forall in Hw2. apply (hits_glob p name (Hw2 p Hin)). exact Hh.
     - intros Hn2' Hg1. apply Hb; [intros X; apply Hn2'; apply E2; exact X|apply E1; exact Hg1].
     - intros Hn2' Hn1'. apply Hc; [intros X; apply Hn2'; apply E2; exact X|intros X; apply Hn1'; apply E1; exact X].
   Qed.
